@@ -22,7 +22,7 @@ STR = ["stralloc_catb.c", "stralloc_opyb.c", "stralloc_pend.c", "stralloc_cats.c
 def obligations(tier):
     # pqadd (restart must not schedule a channel twice) and todo_do (a message is never preprocessed again once it is being
     # delivered: that would rebuild every recipient as 'to do') belong to "never retried / at most one attempt" as well
-    obls = _borrow("C03", ["del_dochan", "pass_dochan", "markdone", "job_close", "pqadd", "todo_do"], tier)
+    obls = _borrow("C03", ["del_dochan", "pass_dochan", "markdone", "job_close", "pqadd", "todo_do", "readsubdir_scan", "pqstart_all"], tier)
     obls.append(_plan("C16").startup_obligation())
     # the spawner's side (spawn.c is an anchor of this property): a delivery number that is in use is refused, a slot is free again only
     # after its one report
